@@ -5,5 +5,6 @@ CONSTANTS
   SepChoice = "all"
   EmitMin = 2
   WithFinal = TRUE
+  AssertRef = FALSE
 INVARIANTS RefAgrees
 CHECK_DEADLOCK FALSE
